@@ -81,4 +81,47 @@ theorem baseOf_map_base (l : List Step) : baseOf (l.map XStep.base) = l := by
   | nil => rfl
   | cons a t ih => simp [baseOf, ih]
 
+/-- `with_excess` elements -/
+def isExcess : XStep → Bool
+  | .base (.withExcess _) => true
+  | _ => false
+
+/-- **the body never sees a `with_excess`**: dropping every `with_excess` element from the list —
+wherever it stands — leaves the inputs and outputs of the fold unchanged -/
+theorem runX_body_drop_excess (elems : List XStep) : ∀ (st : BuildSt),
+    (runX st elems).ins = (runX st (elems.filter (fun e => !isExcess e))).ins ∧
+    (runX st elems).outs = (runX st (elems.filter (fun e => !isExcess e))).outs := by
+  induction elems with
+  | nil => intro st; exact ⟨rfl, rfl⟩
+  | cons e r ih =>
+    intro st
+    by_cases h : isExcess e = true
+    · have hf : (e :: r).filter (fun e => !isExcess e) = r.filter (fun e => !isExcess e) := by
+        simp [h]
+      rw [hf]
+      have hb : (xstep st e).ins = st.ins ∧ (xstep st e).outs = st.outs := by
+        cases e with
+        | base s => cases s <;> simp_all [isExcess, xstep, step]
+        | initialTx i o => simp [isExcess] at h
+      have h1 := runX_body_indep r (xstep st e) st hb.1 hb.2
+      have h2 := ih st
+      simp only [runX, foldl_cons] at h1 h2 ⊢
+      exact ⟨h1.1.trans h2.1, h1.2.trans h2.2⟩
+    · have hf : (e :: r).filter (fun e => !isExcess e) = e :: r.filter (fun e => !isExcess e) := by
+        simp [h]
+      rw [hf]
+      have h2 := ih (xstep st e)
+      simp only [runX, foldl_cons] at h2 ⊢
+      exact h2
+
+/-- the three key lists after the fold do not depend on the body the fold started from -/
+theorem runX_keys_indep_body (elems : List XStep) (st st' : BuildSt)
+    (hn : st.negK = st'.negK) (hp : st.posK = st'.posK) (hb : st.posB = st'.posB) :
+    (runX st elems).negK = (runX st' elems).negK ∧ (runX st elems).posK = (runX st' elems).posK ∧
+    (runX st elems).posB = (runX st' elems).posB := by
+  obtain ⟨a1, a2, a3⟩ := runX_keys st elems
+  obtain ⟨b1, b2, b3⟩ := runX_keys st' elems
+  rw [a1, a2, a3, b1, b2, b3, hn, hp, hb]
+  exact ⟨rfl, rfl, rfl⟩
+
 end GV.Keys
